@@ -1,6 +1,6 @@
 """Slot level correspondence: the hand-written Coq slot models against the real element-moving helpers.
 
-coq/Slots.v, Erase.v, Alias.v, Throw.v, EmplaceGrow.v and ThrowMove.v model the helper functions of include/amc/vectorcommon.hpp
+coq/Slots.v, Erase.v, Alias.v, Throw.v, EmplaceGrow.v, ThrowMove.v, SlotsTR.v, Transfer.v and AliasThrow.v model the helper functions of include/amc/vectorcommon.hpp
 (namespace amc::vec) on a memory of slots `Out | Raw | Live v | Moved`.  This module ties them to the code by an executable comparison:
 
   * harness/cpp/slotdrv.cpp (ASan + UBSan build, from /repo's working tree) calls the real helpers on a raw buffer of the
@@ -16,6 +16,9 @@ coq/Slots.v, Erase.v, Alias.v, Throw.v, EmplaceGrow.v and ThrowMove.v model the 
   * the families of coq/Transfer.v (swap_deep, move_n, reloc*: swap / move assignment / relocation of a whole content) run between TWO
     raw buffers (composite state `buffer 1/buffer 2/e`), for vf::El<0>, vf::El<1> and - relocation only - vf::El<2> (the copy variant
     RelocateByCopy with every throw index, amc::uninitialized_relocate_n with throwing moves); erase_at* on one buffer;
+  * the families of coq/AliasThrow.v (insert_own_*, insert_cnt_own_*, push_back_own_*, insert_range_in_*; `_th`: El<0>, `_tr`: El<1>) call the
+    REAL member functions of a whole amc::vector with one of its own elements as the argument (within the capacity and growing: composite
+    state `block/e/new block`, read through the element and allocator ledgers), and insert (pos, first, last) with single-pass iterators;
   * both sides are rendered to the same text (`post=R,L10,M,... | threw= | newsize= | errs=`) and compared line by line.
 
 `run(tier) -> dict`;  `python3 -m lib.slotcorr [quick|thorough]` prints a summary and exits 1 on any difference.
@@ -32,7 +35,7 @@ from . import common as C
 from . import coqbuild
 
 WORK = os.path.join(C.CACHE, "slotcorr")
-VOS = ["Slots.vo", "Erase.vo", "Alias.vo", "Throw.vo", "EmplaceGrow.vo", "ThrowMove.vo", "SlotsTR.vo", "Transfer.vo"]
+VOS = ["Slots.vo", "Erase.vo", "Alias.vo", "Throw.vo", "EmplaceGrow.vo", "ThrowMove.vo", "SlotsTR.vo", "Transfer.vo", "AliasThrow.vo"]
 RANGE_VALUE = 100       # slotdrv.cpp: kRangeValue (insert_range_tr: the source range holds 100, 101, ...)
 NEW_VALUE = 99          # slotdrv.cpp: kNewValue
 FIRST_VALUE = 10        # slotdrv.cpp: kFirstValue
@@ -171,19 +174,79 @@ CASES = {
                     ["SlotsTR.relocate_n", "SlotsTR.reloc_fwd", "SlotsTR.relocate", "Throw.destroy", "ThrowMove.lift"]),
     "erase_at_mt": (("size", "cap", "pos"), True, "KEraseAtMt", "Transfer.erase_at_mt",
                     ["ThrowMove.move_forward", "ThrowMove.move_assign", "EmplaceGrow.mv_assign", "Throw.destroy", "Throw.tick", "ThrowMove.lift"]),
+    # coq/AliasThrow.v: real member functions of a whole amc::vector<El<0>> whose argument is an OWN element (within the capacity and
+    # growing), and the single-pass range insertion; composite state block/e/new block
+    "insert_own_th": (("size", "cap", "pos", "src"), True, "KInsertOwnTh false", "AliasThrow.insert_own",
+                      ["AliasThrow.finish_tmp", "AliasThrow.adjust", "AliasThrow.next_capn", "AliasThrow.insert_n_ref",
+                       "AliasThrow.copy_construct_ref", "AliasThrow.copy_assign_ref", "AliasThrow.read_ref", "EmplaceGrow.construct_arg",
+                       "EmplaceGrow.emplace_n", "EmplaceGrow.emplace_grow", "EmplaceGrow.grow", "EmplaceGrow.next_cap", "EmplaceGrow.fill_range",
+                       "EmplaceGrow.mv_uninit_n", "EmplaceGrow.catch_grow", "EmplaceGrow.give_back", "EmplaceGrow.relocate_at",
+                       "EmplaceGrow.shift_relocate", "EmplaceGrow.shift_right1", "EmplaceGrow.shift_left", "EmplaceGrow.relocate_after_shift",
+                       "EmplaceGrow.mv_construct", "EmplaceGrow.mv_assign", "EmplaceGrow.mv_backward", "EmplaceGrow.mv_forward",
+                       "Throw.copy_construct", "Throw.copy_assign_alive", "Throw.destroy_n", "Throw.destroy", "Throw.tick"]),
+    "insert_cnt_own_th": (("size", "cap", "pos", "count", "src"), True, "KInsertCntOwnTh false", "AliasThrow.insert_cnt_own",
+                          ["AliasThrow.finish_tmp", "AliasThrow.adjust", "AliasThrow.next_capn", "AliasThrow.insert_cnt_ref",
+                           "AliasThrow.fill_after_shift_ref", "AliasThrow.fill_n_ref", "AliasThrow.uninit_fill_n_ref",
+                           "AliasThrow.uninit_fill_loop_ref", "AliasThrow.copy_construct_ref", "AliasThrow.copy_assign_ref",
+                           "AliasThrow.read_ref", "EmplaceGrow.construct_arg", "EmplaceGrow.grow", "EmplaceGrow.fill_range",
+                           "EmplaceGrow.mv_uninit_n", "EmplaceGrow.mv_construct", "Throw.shift_right_cnt", "Throw.uninit_move_n",
+                           "Throw.move_backward", "Throw.move_construct", "Throw.move_assign", "Throw.unshift_right", "Throw.unshift_move",
+                           "Throw.copy_construct", "Throw.copy_assign_alive", "Throw.destroy_n", "Throw.destroy", "Throw.tick"]),
+    "push_back_own_th": (("size", "cap", "src"), True, "KPushBackOwnTh false", "AliasThrow.push_back_own",
+                         ["AliasThrow.adjust", "AliasThrow.next_capn", "AliasThrow.copy_construct_ref", "AliasThrow.read_ref",
+                          "EmplaceGrow.grow", "EmplaceGrow.fill_range", "EmplaceGrow.mv_uninit_n", "EmplaceGrow.mv_construct",
+                          "Throw.copy_construct", "Throw.destroy_n", "Throw.destroy", "Throw.tick"]),
+    "insert_range_in_th": (("size", "cap", "pos", "count"), True, "KInsertRangeInTh false", "AliasThrow.insert_range_in",
+                           ["AliasThrow.append_range_in", "AliasThrow.append_loop", "AliasThrow.rotate", "Throw.copy_construct",
+                            "Throw.destroy_n", "Throw.destroy", "Throw.tick"]),
+    # the same member functions on the trivially relocatable element vf::El<1> (tr = true: the overloads of SlotsTR.v, the relocating grow)
+    "insert_own_tr": (("size", "cap", "pos", "src"), True, "KInsertOwnTh true", "AliasThrow.insert_own",
+                      ["AliasThrow.finish_tmp", "AliasThrow.adjust", "AliasThrow.grow_tr", "AliasThrow.emplace_grow_tr", "AliasThrow.next_capn", "AliasThrow.insert_n_ref",
+                       "SlotsTR.emplace_n", "SlotsTR.shift_relocate", "SlotsTR.shift_right1", "SlotsTR.shift_left", "SlotsTR.relocate_n", "SlotsTR.relocate",
+                       "AliasThrow.copy_construct_ref", "AliasThrow.copy_assign_ref", "AliasThrow.read_ref", "EmplaceGrow.construct_arg",
+                       "EmplaceGrow.emplace_n", "EmplaceGrow.emplace_grow", "EmplaceGrow.grow", "EmplaceGrow.next_cap", "EmplaceGrow.fill_range",
+                       "EmplaceGrow.mv_uninit_n", "EmplaceGrow.catch_grow", "EmplaceGrow.give_back", "EmplaceGrow.relocate_at",
+                       "EmplaceGrow.shift_relocate", "EmplaceGrow.shift_right1", "EmplaceGrow.shift_left", "EmplaceGrow.relocate_after_shift",
+                       "EmplaceGrow.mv_construct", "EmplaceGrow.mv_assign", "EmplaceGrow.mv_backward", "EmplaceGrow.mv_forward",
+                       "Throw.copy_construct", "Throw.copy_assign_alive", "Throw.destroy_n", "Throw.destroy", "Throw.tick"]),
+    "insert_cnt_own_tr": (("size", "cap", "pos", "count", "src"), True, "KInsertCntOwnTh true", "AliasThrow.insert_cnt_own",
+                          ["AliasThrow.finish_tmp", "AliasThrow.adjust", "AliasThrow.grow_tr", "AliasThrow.next_capn", "AliasThrow.insert_cnt_ref",
+                           "SlotsTR.shift_right_cnt", "SlotsTR.unshift_right", "SlotsTR.relocate_n", "SlotsTR.relocate",
+                           "AliasThrow.fill_after_shift_ref", "AliasThrow.fill_n_ref", "AliasThrow.uninit_fill_n_ref",
+                           "AliasThrow.uninit_fill_loop_ref", "AliasThrow.copy_construct_ref", "AliasThrow.copy_assign_ref",
+                           "AliasThrow.read_ref", "EmplaceGrow.construct_arg", "EmplaceGrow.grow", "EmplaceGrow.fill_range",
+                           "EmplaceGrow.mv_uninit_n", "EmplaceGrow.mv_construct", "Throw.shift_right_cnt", "Throw.uninit_move_n",
+                           "Throw.move_backward", "Throw.move_construct", "Throw.move_assign", "Throw.unshift_right", "Throw.unshift_move",
+                           "Throw.copy_construct", "Throw.copy_assign_alive", "Throw.destroy_n", "Throw.destroy", "Throw.tick"]),
+    "push_back_own_tr": (("size", "cap", "src"), True, "KPushBackOwnTh true", "AliasThrow.push_back_own",
+                         ["AliasThrow.adjust", "AliasThrow.grow_tr", "AliasThrow.next_capn", "AliasThrow.copy_construct_ref", "AliasThrow.read_ref",
+                          "SlotsTR.relocate_n", "SlotsTR.relocate",
+                          "EmplaceGrow.grow", "EmplaceGrow.fill_range", "EmplaceGrow.mv_uninit_n", "EmplaceGrow.mv_construct",
+                          "Throw.copy_construct", "Throw.destroy_n", "Throw.destroy", "Throw.tick"]),
+    "insert_range_in_tr": (("size", "cap", "pos", "count"), True, "KInsertRangeInTh true", "AliasThrow.insert_range_in",
+                           ["AliasThrow.append_range_in", "AliasThrow.append_loop", "AliasThrow.rotate", "Throw.copy_construct",
+                            "Throw.destroy_n", "Throw.destroy", "Throw.tick"]),
 }
 # the model computes the size the member function sets
-HAS_NEWSIZE = ("insert_cnt", "resize_grow", "emplace_n_th", "emplace_grow_th", "emplace_back_grow_th", "emplace_n_mt", "emplace_n_tr")
+HAS_NEWSIZE = ("insert_cnt", "resize_grow", "emplace_n_th", "emplace_grow_th", "emplace_back_grow_th", "emplace_n_mt", "emplace_n_tr",
+               "insert_own_th", "insert_cnt_own_th", "push_back_own_th", "insert_range_in_th",
+               "insert_own_tr", "insert_cnt_own_tr", "push_back_own_tr", "insert_range_in_tr")
 # families whose state is made of segments `a/b/...` (slotdrv.cpp, SLOTDRV.md): block/argument/e  or  old block/argument/e/new block
 COMPOSITE = {"emplace_n_th": 3, "emplace_grow_th": 4, "emplace_back_grow_th": 4, "emplace_n_mt": 3, "emplace_n_tr": 3,
-             "swap_deep": 3, "swap_deep_tr": 3, "move_n": 3, "move_n_tr": 3, "reloc": 3, "reloc_tr": 3, "reloc_cp": 3, "reloc_mt": 3}
+             "swap_deep": 3, "swap_deep_tr": 3, "move_n": 3, "move_n_tr": 3, "reloc": 3, "reloc_tr": 3, "reloc_cp": 3, "reloc_mt": 3,
+             "insert_own_th": 3, "insert_cnt_own_th": 3, "push_back_own_th": 3, "insert_range_in_th": 3,
+             "insert_own_tr": 3, "insert_cnt_own_tr": 3, "push_back_own_tr": 3, "insert_range_in_tr": 3}
+# composite families on a whole vector (coq/AliasThrow.v): block 0..cap-1/e/new block
+VEC3 = ("insert_own_th", "insert_cnt_own_th", "push_back_own_th", "insert_range_in_th",
+        "insert_own_tr", "insert_cnt_own_tr", "push_back_own_tr", "insert_range_in_tr")
 # composite families made of TWO buffers: buffer 1/buffer 2/e (coq/Transfer.v); the others: block/argument/e[/new block]
 TWO_BUF = ("swap_deep", "swap_deep_tr", "move_n", "move_n_tr", "reloc", "reloc_tr", "reloc_cp", "reloc_mt")
 # composite families whose block segment is `cap` slots long (the others: `size`)
 BLOCK_IS_CAP = ("emplace_n_th", "emplace_n_mt", "emplace_n_tr")
 # families on the trivially relocatable element vf::El<1>: objects are moved bitwise, the marker `!` is legal there (see relocation_marks)
 TR_FAMILIES = ("shift_right1_tr", "shift_right_cnt_tr", "unshift_right_tr", "shift_left_tr", "insert_n_tr", "emplace_n_tr", "erase_tr",
-               "insert_cnt_tr", "insert_range_tr", "swap_deep_tr", "move_n_tr", "reloc_tr", "erase_at_tr")
+               "insert_cnt_tr", "insert_range_tr", "swap_deep_tr", "move_n_tr", "reloc_tr", "erase_at_tr",
+               "insert_own_tr", "insert_cnt_own_tr", "push_back_own_tr", "insert_range_in_tr")
 
 LINE = re.compile(r"^CASE (\S+) ((?:\w+=\d+ )+)k=(-|\d+) \| pre=(\S+) \| post=(\S+) \| threw=([01]) \| newsize=(-|\d+) \| "
                   r"errs=(\d+) live=(-?\d+)(?: msg=(.*))?$")
@@ -192,7 +255,7 @@ HEAD = re.compile(r"^CASE (\S+) ((?:\w+=\d+ )+)k=(-|\d+) \|")
 COQ_PRELUDE = r"""(* generated by lib/slotcorr.py: evaluates the slot models on the cases the C++ driver ran *)
 From Coq Require Import ZArith List Arith Bool.
 From Amc Require Import Slots Erase Alias Throw EmplaceGrow.
-From Amc Require ThrowMove SlotsTR Transfer.
+From Amc Require ThrowMove SlotsTR Transfer AliasThrow.
 Import ListNotations.
 Set Printing Depth 1000000.
 Set Printing Width 200.
@@ -293,7 +356,15 @@ Inductive case :=
 | KRelocCopy (n cap1 cap2 : nat) (th : option nat)
 | KRelocMt (n cap1 cap2 : nat) (th : option nat)
 | KEraseAt (tr : bool) (size cap pos : nat) (th : option nat)
-| KEraseAtMt (size cap pos : nat) (th : option nat).
+| KEraseAtMt (size cap pos : nat) (th : option nat)
+| KInsertOwnTh (tr : bool) (size cap pos src : nat) (th : option nat)
+| KInsertCntOwnTh (tr : bool) (size cap pos count src : nat) (th : option nat)
+| KPushBackOwnTh (tr : bool) (size cap src : nat) (th : option nat)
+| KInsertRangeInTh (tr : bool) (size cap pos count : nat) (th : option nat).
+
+(* coq/AliasThrow.v, layout AliasThrow.init_own: block [0, cap), e = cap + 1, t = cap + 2 (the temporary T (v)), new block from cap + 4 with
+   the capacity SafeNextCapacity gives for the size needed; observed: block, e, t, new block *)
+Definition idxOwn (cap need : nat) : list nat := seq 0 cap ++ [cap + 1; cap + 2] ++ seq (cap + 4) (AliasThrow.next_capn cap need).
 
 (* coq/Transfer.v, layout Transfer.init2: buffer 1 = [0, cap1), t = cap1 + 1 (the temporary of std::swap), buffer 2 = [cap1 + 3, cap1 + 3 + cap2);
    observed: buffer 1, buffer 2, t *)
@@ -386,6 +457,21 @@ Definition run (c : case) : list Z :=
   (* erase(position) calls erase_at (position, size - pos - 1) *)
   | KEraseAt tr size cap pos th => showT cap (ThrowMove.lift (Transfer.erase_at tr (initT size cap) pos (size - pos - 1)) th) NOSIZE NOSIZE
   | KEraseAtMt size cap pos th => showT cap (Transfer.erase_at_mt (initT size cap) th pos (size - pos - 1)) NOSIZE NOSIZE
+  | KInsertOwnTh tr size cap pos src th =>
+      showE (idxOwn cap (size + 1))
+            (AliasThrow.insert_own tr (AliasThrow.init_own size cap) th size cap pos src (cap + 1) (cap + 2) (cap + 4))
+            (Z.of_nat (size + 1)) (Z.of_nat size)
+  | KInsertCntOwnTh tr size cap pos count src th =>
+      showE (idxOwn cap (size + count))
+            (AliasThrow.insert_cnt_own tr (AliasThrow.init_own size cap) th size cap pos count src (cap + 2) (cap + 4))
+            (Z.of_nat (size + count)) (Z.of_nat size)
+  | KPushBackOwnTh tr size cap src th =>
+      showE (idxOwn cap (size + 1)) (AliasThrow.push_back_own tr (AliasThrow.init_own size cap) th size cap src (cap + 4))
+            (Z.of_nat (size + 1)) (Z.of_nat size)
+  (* within the capacity: no new block is observed; the same model for both flavours (copies, then std::rotate: no relocation) *)
+  | KInsertRangeInTh _ size cap pos count th =>
+      showE (seq 0 cap ++ [cap + 1; cap + 2]) (AliasThrow.insert_range_in (AliasThrow.init_own size cap) th size pos (rangeTR count))
+            (Z.of_nat (size + count)) (Z.of_nat size)
   end.
 """
 ERR_NAMES = {1: "ConstructOverLive", 2: "ReadDead", 3: "AssignDead", 4: "DestroyDead", 5: "OutOfBlock"}
@@ -457,6 +543,49 @@ def relocation_marks2(c, text, before):
             elif (j in want[b]) != t.endswith("!"):
                 out.append("buffer %d slot %d holds %s: %s" % (b + 1, j, t, "a relocated object without the marker" if j in want[b]
                                                                else "marked as relocated, but it was not moved by a memmove"))
+    return out
+
+
+def relocation_marks3(c, text, before):
+    """The marker `!` in a state of a whole-vector `*_tr` family (block/e/new block).  Positional rule (the inserted copies carry the value
+    of an own element, so the value does not tell where an object was built): before the call no marker; after it an element carries the
+    marker iff it was relocated by a memmove and is not back at its own address: every old element once the vector has moved to the new
+    block; within the old block the shifted tail of a call that completed; the new element of insert (pos, own element at / after pos),
+    built in the temporary `e` and relocated into place; never the copies constructed in place, never after std::rotate (it moves values).
+    -> list of problems"""
+    p = c.params
+    size = p["size"]
+    segs = segments(text)
+    out = []
+    if any(t.endswith("!") for t in segs[1]):
+        out.append("marker in the temporary segment")
+    grown = bool(segs[2]) and segs[2] != ["X"]
+    if any(t.endswith("!") for t in (segs[0] if grown else segs[2])):
+        out.append("marker in a block the vector does not use")
+    seg = segs[2] if grown else segs[0]
+    if c.name == "insert_own_tr":
+        pos, count, new_marked = p["pos"], 1, p["src"] >= p["pos"]
+    elif c.name == "insert_cnt_own_tr":
+        pos, count, new_marked = p["pos"], p["count"], False
+    elif c.name == "push_back_own_tr":
+        pos, count, new_marked = size, 1, False
+    else:                                   # insert_range_in_tr: appended in place, then rotated by value
+        pos, count, new_marked = size, 0, False
+    for j, t in enumerate(seg):
+        if not is_alive(t):
+            if t.endswith("!"):
+                out.append("slot %d: marker on a raw slot" % j)
+            continue
+        if before:
+            want = False
+        elif c.threw or count == 0 or j < pos:
+            want = grown
+        elif j < pos + count:
+            want = new_marked
+        else:
+            want = True
+        if want != t.endswith("!"):
+            out.append("slot %d holds %s: %s" % (j, t, "a relocated object without the marker" if want else "marked as relocated, but it is where it was built"))
     return out
 
 
@@ -596,6 +725,16 @@ def expected_bases(max_size, max_extra):
                         for pos in range(size + 1):
                             out.add(("emplace_grow_th", size, pos, src, rv))
                         out.add(("emplace_back_grow_th", size, src, rv))
+            for sfx in ("_th", "_tr"):
+                for src in range(size):
+                    for pos in range(size + 1):
+                        out.add(("insert_own" + sfx, size, cap, pos, src))
+                        for count in range(max_extra + 1):
+                            out.add(("insert_cnt_own" + sfx, size, cap, pos, count, src))
+                    out.add(("push_back_own" + sfx, size, cap, src))
+                for pos in range(size + 1):
+                    for count in range(extra + 1):
+                        out.add(("insert_range_in" + sfx, size, cap, pos, count))
             for first in range(size + 1):
                 for last in range(first, size + 1):
                     out.add(("erase", size, cap, first, last))
@@ -638,6 +777,8 @@ def expected_pre(c):
     size = p["size"]
     cap = p.get("cap", size)
     prefix = ["L%d" % (FIRST_VALUE + i) if i < size else "R" for i in range(cap)]
+    if c.name in VEC3:
+        return "/".join([",".join(prefix) if prefix else "-", "R", "-"])
     if c.name in COMPOSITE:
         arg = "L%d" % (FIRST_VALUE + p["src"] if p["src"] < size else NEW_VALUE)
         segs = [",".join(prefix) if prefix else "-", arg, "R"] + (["-"] if COMPOSITE[c.name] == 4 else [])
@@ -687,7 +828,8 @@ def harness_checks(cases, max_size, max_extra):
         if c.name in TR_FAMILIES:
             for when, text, completed in (("before", c.pre_text if c.name in COMPOSITE else c.pre, False),
                                           ("after", c.post_text if c.name in COMPOSITE else c.post, not c.threw)):
-                for q in (relocation_marks2(c, text, when == "before") if c.name in TWO_BUF else relocation_marks(c, text, completed)):
+                for q in (relocation_marks2(c, text, when == "before") if c.name in TWO_BUF else
+                          relocation_marks3(c, text, when == "before") if c.name in VEC3 else relocation_marks(c, text, completed)):
                     anomalies.append("%s: relocation marker %s the call: %s" % (c.title(), when, q))
         elif any(s.endswith("!") for s in c.post):
             anomalies.append("%s: a non relocatable object was moved bitwise: %s" % (c.title(), ",".join(c.post)))
@@ -697,8 +839,8 @@ def harness_checks(cases, max_size, max_extra):
             if any(t.startswith("X") for t in c.post):
                 anomalies.append("%s: leak: %s" % (c.title(), c.post_text))
             segs = segments(c.post_text)
-            blocks = segs[0] + (segs[1] if c.name in TWO_BUF else segs[3] if len(segs) == 4 else [])
-            shown = len([t for t in blocks if is_alive(t)]) + sum(int(t[1:] or 1) for t in segs[2] if t.startswith("X"))
+            blocks = segs[0] + (segs[1] if c.name in TWO_BUF else segs[2] if c.name in VEC3 else segs[3] if len(segs) == 4 else [])
+            shown = len([t for t in blocks if is_alive(t)]) + sum(int(t[1:] or 1) for t in (segs[1] if c.name in VEC3 else segs[2]) if t.startswith("X"))
             if c.live != shown:
                 anomalies.append("%s: %d live objects but %d accounted for in %s" % (c.title(), c.live, shown, c.post_text))
             continue
@@ -778,6 +920,18 @@ def composite_text(c, slots):
         _, cap1, _, cap2 = two_buf_shape(c)
         toks = [{-3: "O"}.get(z, slot_text(z)) for z in slots]
         return "/".join([",".join(toks[:cap1]) if cap1 else "-", ",".join(toks[cap1:cap1 + cap2]) if cap2 else "-", toks[cap1 + cap2]])
+    if c.name in VEC3:
+        # [block 0..cap-1, e, t, new block...]: the two temporaries are one segment (R: both raw; X<n>: n of them alive)
+        cap = c.params["cap"]
+        toks = [{-3: "O"}.get(z, slot_text(z)) for z in slots]
+        tmp = toks[cap:cap + 2]
+        if all(t == "R" or is_alive(t) for t in tmp):
+            alive = len([t for t in tmp if is_alive(t)])
+            e = "X%d" % alive if alive else "R"
+        else:
+            e = "+".join(tmp)
+        new = toks[cap + 2:]
+        return "/".join([",".join(toks[:cap]) if cap else "-", e, "-" if all(t == "O" for t in new) else ",".join(new)])
     n = c.params["cap"] if c.name in BLOCK_IS_CAP else c.params["size"]
     toks = [{-3: "O"}.get(z, slot_text(z)) for z in slots]
     segs = [",".join(toks[:n]) if n else "-", toks[n], toks[n + 1]]
@@ -817,8 +971,11 @@ def run(tier="quick"):
                     "whole-content transfers between two buffers (coq/Transfer.v): swap_deep and move_n for every pair of lengths 0..%d, "
                     "RelocateToNewBuffer of 0..%d elements into a raw buffer, each capacity tight and with spare slots, on El<0> and El<1>; the "
                     "copy variant of RelocateToNewBuffer and amc::uninitialized_relocate_n on El<2>, every throw index; erase_at on El<0>, "
-                    "El<1>, El<2>"
-                    % (max_size, max_extra, max_extra, max_size, max_size)}
+                    "El<1>, El<2>; real member functions of a whole amc::vector (coq/AliasThrow.v), on El<0> and El<1>: insert (pos, own element), "
+                    "insert (pos, count, own element) (count 0..%d whatever the capacity), push_back (own element), every capacity from full "
+                    "(the call grows) to size + %d, every position and source index, and insert (pos, first, last) with single-pass iterators "
+                    "within the capacity, every throw index"
+                    % (max_size, max_extra, max_extra, max_size, max_size, max_extra, max_extra)}
 
     def done():
         res["wall_time_s"] = round(time.time() - t_start, 1)
